@@ -5,7 +5,7 @@
 // ---------------------------------------------------------------------------
 
 /// Interval::sub, the non-overflowing case (mirror image of lemma_interval_add)
-pub proof fn lemma_interval_sub(a: Interval, b: Interval)
+pub proof fn lemma_ia_interval_sub(a: Interval, b: Interval)
     requires a.inv(), b.inv(), a.w() == b.w(),
     ensures ({
         let r = Interval { start: bv_sub(a.start, b.end), end: bv_sub(a.end, b.start), stride: spec_gcd(a.stride as nat, b.stride as nat) as u64 };
@@ -25,13 +25,13 @@ pub proof fn lemma_interval_sub(a: Interval, b: Interval)
             lemma_add_exact(x, y);
             // (x - y) - (a.start - b.end) == (x - a.start) + (b.end - y)
             lemma_gcd_on_stride(b.stride, b.stride, b.end.s() - b.start.s(), y.s() - b.start.s());
-            lemma_gcd_self(b.stride as nat);
+            lemma_ia_gcd_self(b.stride as nat);
             lemma_gcd_on_stride(a.stride, b.stride, x.s() - a.start.s(), b.end.s() - y.s());
         }
     }
 }
 
-pub proof fn lemma_gcd_self(a: nat)
+pub proof fn lemma_ia_gcd_self(a: nat)
     ensures spec_gcd(a, a) == a,
 {
     if a != 0 {
@@ -43,7 +43,7 @@ pub proof fn lemma_gcd_self(a: nat)
 // ---------------- adjust_end / adjust_start ---------------------------------
 
 /// rounding D down to a multiple of s: D - D % s is the largest multiple of s in [0, D]
-pub proof fn lemma_round_down(d: int, s: int)
+pub proof fn lemma_ia_round_down(d: int, s: int)
     requires d >= 0, s >= 1
     ensures 0 <= d % s < s, d % s <= d, (d - d % s) % s == 0, (d - d % s == 0) == (d < s),
 {
@@ -54,7 +54,7 @@ pub proof fn lemma_round_down(d: int, s: int)
     if d < s { vstd::arithmetic::div_mod::lemma_small_mod(d as nat, s as nat); }
     else if q == 0 { assert(s * q == 0) by (nonlinear_arith) requires q == 0; }
 }
-pub proof fn lemma_round_down_max(d: int, s: int, k: int)
+pub proof fn lemma_ia_round_down_max(d: int, s: int, k: int)
     requires d >= 0, s >= 1, 0 <= k <= d, k % s == 0
     ensures k <= d - d % s,
 {
@@ -66,7 +66,7 @@ pub proof fn lemma_round_down_max(d: int, s: int, k: int)
 }
 
 /// equality of equally wide well-formed bitvectors is equality of their signed readings
-pub proof fn lemma_eq_iff_s(a: Bitvector, b: Bitvector)
+pub proof fn lemma_ia_eq_iff_s(a: Bitvector, b: Bitvector)
     requires a.wf(), b.wf(), a.w@ == b.w@
     ensures (a == b) == (a.s() == b.s()), (a.u@ == b.u@) == (a.s() == b.s()),
 {
@@ -74,7 +74,7 @@ pub proof fn lemma_eq_iff_s(a: Bitvector, b: Bitvector)
 }
 
 /// what adjust_end_to_value_in_stride computes on its general path (width <= 64)
-pub proof fn lemma_adjust_end(start: Bitvector, end: Bitvector, stride: u64)
+pub proof fn lemma_ia_adjust_end(start: Bitvector, end: Bitvector, stride: u64)
     requires start.wf(), end.wf(), start.w@ == end.w@, start.w@ <= 64, start.s() <= end.s(), stride >= 1,
     ensures ({
         let w = start.w@;
@@ -97,20 +97,20 @@ pub proof fn lemma_adjust_end(start: Bitvector, end: Bitvector, stride: u64)
     let ne = bv_sub(end, dbv);
     lemma_p2_consts(); lemma_p2_mono(w, 64);
     lemma_sval(w, start.u@); lemma_sval(w, end.u@);
-    lemma_round_down(dd, stride as int);
+    lemma_ia_round_down(dd, stride as int);
     vstd::arithmetic::div_mod::lemma_small_mod(d as nat, p2(w));
     lemma_sval(w, dbv.u@);
     lemma_add_exact(end, dbv);
     // d < 2^w read as signed may be negative (d >= 2^(w-1)); the difference is exact either way
     lemma_binop_facts(end, dbv);
-    lemma_eq_iff_s(start, ne); lemma_eq_iff_s(start, end);
+    lemma_ia_eq_iff_s(start, ne); lemma_ia_eq_iff_s(start, end);
     assert forall|v: Bitvector| v.wf() && v.w@ == w && start.s() <= v.s() <= end.s() && #[trigger] on_stride(stride, v.s() - start.s()) implies v.s() <= ne.s() by {
-        lemma_round_down_max(dd, stride as int, v.s() - start.s());
+        lemma_ia_round_down_max(dd, stride as int, v.s() - start.s());
     }
 }
 
 /// what adjust_start_to_value_in_stride computes on its general path (width <= 64)
-pub proof fn lemma_adjust_start(start: Bitvector, end: Bitvector, stride: u64)
+pub proof fn lemma_ia_adjust_start(start: Bitvector, end: Bitvector, stride: u64)
     requires start.wf(), end.wf(), start.w@ == end.w@, start.w@ <= 64, start.s() <= end.s(), stride >= 1,
     ensures ({
         let w = start.w@;
@@ -135,14 +135,14 @@ pub proof fn lemma_adjust_start(start: Bitvector, end: Bitvector, stride: u64)
     let ns = bv_add(start, dbv);
     lemma_p2_consts(); lemma_p2_mono(w, 64);
     lemma_sval(w, start.u@); lemma_sval(w, end.u@);
-    lemma_round_down(dd, stride as int);
+    lemma_ia_round_down(dd, stride as int);
     vstd::arithmetic::div_mod::lemma_small_mod(d as nat, p2(w));
     lemma_sval(w, dbv.u@);
     lemma_binop_facts(start, dbv);
-    lemma_eq_iff_s(ns, end); lemma_eq_iff_s(start, end);
+    lemma_ia_eq_iff_s(ns, end); lemma_ia_eq_iff_s(start, end);
     lemma_divides_mul(stride as int, 0);
     assert forall|v: Bitvector| v.wf() && v.w@ == w && start.s() <= v.s() <= end.s() && #[trigger] on_stride(stride, end.s() - v.s()) implies v.s() >= ns.s() by {
-        lemma_round_down_max(dd, stride as int, end.s() - v.s());
+        lemma_ia_round_down_max(dd, stride as int, end.s() - v.s());
     }
     assert forall|v: Bitvector| #![trigger on_stride(stride, end.s() - v.s())] #![trigger on_stride(stride, v.s() - ns.s())]
         v.wf() && v.w@ == w implies (on_stride(stride, end.s() - v.s()) <==> on_stride(stride, v.s() - ns.s())) by {
@@ -155,7 +155,7 @@ pub proof fn lemma_adjust_start(start: Bitvector, end: Bitvector, stride: u64)
 // ---------------- int_2_comp ---------------------------------------------------
 
 /// two's complement negation is exact except for the minimum
-pub proof fn lemma_neg_exact(x: Bitvector)
+pub proof fn lemma_ia_neg_exact(x: Bitvector)
     requires x.wf()
     ensures bv_neg(x).wf(), bv_neg(x).w@ == x.w@,
             x.s() > smin(x.w@) ==> bv_neg(x).s() == -x.s(),
@@ -168,7 +168,7 @@ pub proof fn lemma_neg_exact(x: Bitvector)
 }
 
 /// Interval::int_2_comp, the branch without the minimum
-pub proof fn lemma_interval_neg(a: Interval)
+pub proof fn lemma_ia_interval_neg(a: Interval)
     requires a.inv(), a.start.s() > smin(a.w()),
     ensures ({
         let r = Interval { start: bv_neg(a.end), end: bv_neg(a.start), stride: a.stride };
@@ -176,10 +176,10 @@ pub proof fn lemma_interval_neg(a: Interval)
     }),
 {
     let r = Interval { start: bv_neg(a.end), end: bv_neg(a.start), stride: a.stride };
-    lemma_neg_exact(a.start); lemma_neg_exact(a.end);
+    lemma_ia_neg_exact(a.start); lemma_ia_neg_exact(a.end);
     assert(r.inv());
     assert forall|x: Bitvector| a.gamma(x) implies #[trigger] r.gamma(bv_neg(x)) by {
-        lemma_neg_exact(x);
+        lemma_ia_neg_exact(x);
         // (-x) - (-end) == (end - start) - (x - start)
         if a.stride != 0 { lemma_divides_add(a.stride as int, a.end.s() - a.start.s(), x.s() - a.start.s()); }
     }
@@ -187,7 +187,7 @@ pub proof fn lemma_interval_neg(a: Interval)
 
 // ---------------- signed_merge ---------------------------------------------------
 
-pub proof fn lemma_divides_scale(d: int, x: int, k: int)
+pub proof fn lemma_ia_divides_scale(d: int, x: int, k: int)
     requires d > 0, divides(d, x)
     ensures divides(d, x * k), divides(d, k * x),
 {
@@ -198,7 +198,7 @@ pub proof fn lemma_divides_scale(d: int, x: int, k: int)
     lemma_divides_mul(d, q * k);
 }
 
-pub proof fn lemma_divides_self(d: int)
+pub proof fn lemma_ia_divides_self(d: int)
     requires d > 0
     ensures divides(d, d), divides(d, 0),
 {
@@ -206,7 +206,7 @@ pub proof fn lemma_divides_self(d: int)
 }
 
 /// a positive multiple of d is at least d
-pub proof fn lemma_divides_le(d: int, x: int)
+pub proof fn lemma_ia_divides_le(d: int, x: int)
     requires d > 0, x > 0, divides(d, x)
     ensures d <= x,
 {
@@ -214,7 +214,7 @@ pub proof fn lemma_divides_le(d: int, x: int)
 }
 
 /// gcd is the greatest common divisor w.r.t. divisibility (divides(0, x) <==> x == 0)
-pub proof fn lemma_gcd_greatest(a: nat, b: nat, d: int)
+pub proof fn lemma_ia_gcd_greatest(a: nat, b: nat, d: int)
     requires d >= 0, divides(d, a as int), divides(d, b as int)
     ensures divides(d, spec_gcd(a, b) as int),
     decreases b
@@ -223,22 +223,22 @@ pub proof fn lemma_gcd_greatest(a: nat, b: nat, d: int)
         // d > 0 because d | b and b != 0
         vstd::arithmetic::div_mod::lemma_fundamental_div_mod(a as int, b as int);
         let q = (a as int) / (b as int);
-        lemma_divides_scale(d, b as int, q);
+        lemma_ia_divides_scale(d, b as int, q);
         lemma_divides_add(d, a as int, (b as int) * q);
-        lemma_gcd_greatest(b, a % b, d);
+        lemma_ia_gcd_greatest(b, a % b, d);
     }
 }
 
 /// g | stride and the offset lies on the stride ==> g | offset
-pub proof fn lemma_on_stride_weaken(s: u64, g: int, x: int)
+pub proof fn lemma_ia_on_stride_weaken(s: u64, g: int, x: int)
     requires g > 0, on_stride(s, x), divides(g, s as int)
     ensures divides(g, x), x % g == 0,
 {
-    if s == 0 { lemma_divides_self(g); } else { lemma_divides_trans(g, s as int, x); }
+    if s == 0 { lemma_ia_divides_self(g); } else { lemma_divides_trans(g, s as int, x); }
 }
 
 /// the three-way gcd of signed_merge
-pub proof fn lemma_gcd3(sa: nat, sb: nat, dd: nat)
+pub proof fn lemma_ia_gcd3(sa: nat, sb: nat, dd: nat)
     ensures ({
         let g = spec_gcd(spec_gcd(sa, sb), dd);
         &&& (g == 0) == (sa == 0 && sb == 0 && dd == 0)
@@ -250,29 +250,29 @@ pub proof fn lemma_gcd3(sa: nat, sb: nat, dd: nat)
     let g = spec_gcd(h, dd);
     lemma_gcd(sa, sb); lemma_gcd(h, dd);
     if g > 0 {
-        lemma_divides_self(g as int);
+        lemma_ia_divides_self(g as int);
         if h > 0 {
             lemma_divides_trans(g as int, h as int, sa as int);
             lemma_divides_trans(g as int, h as int, sb as int);
-            if sa > 0 { lemma_divides_le(g as int, sa as int); } else { lemma_divides_le(g as int, sb as int); }
+            if sa > 0 { lemma_ia_divides_le(g as int, sa as int); } else { lemma_ia_divides_le(g as int, sb as int); }
         } else {
-            lemma_divides_le(g as int, dd as int);
+            lemma_ia_divides_le(g as int, dd as int);
         }
     }
 }
 
 /// distance of two signed values as computed by the wrapping subtraction larger - smaller
-pub proof fn lemma_sub_abs(x: Bitvector, y: Bitvector)
+pub proof fn lemma_ia_sub_abs(x: Bitvector, y: Bitvector)
     requires x.wf(), y.wf(), x.w@ == y.w@, x.s() >= y.s()
     ensures bv_sub(x, y).wf(), bv_sub(x, y).u@ == x.s() - y.s(),
 {
     lemma_binop_facts(x, y);
 }
 
-pub open spec fn merge_dist(a: Interval, b: Interval) -> nat {
+pub open spec fn ia_merge_dist(a: Interval, b: Interval) -> nat {
     (if a.start.s() > b.start.s() { a.start.s() - b.start.s() } else { b.start.s() - a.start.s() }) as nat
 }
-pub open spec fn merge_result(a: Interval, b: Interval, st: u64) -> Interval {
+pub open spec fn ia_merge_result(a: Interval, b: Interval, st: u64) -> Interval {
     Interval {
         start: if a.start.s() <= b.start.s() { a.start } else { b.start },
         end: if a.end.s() >= b.end.s() { a.end } else { b.end },
@@ -280,37 +280,42 @@ pub open spec fn merge_result(a: Interval, b: Interval, st: u64) -> Interval {
     }
 }
 
+/// the stride signed_merge computes (start distances of 2^64 and more do not fit the u64 gcd: stride 1)
+pub open spec fn ia_merge_stride(a: Interval, b: Interval) -> nat {
+    if ia_merge_dist(a, b) < p2(64) { spec_gcd(spec_gcd(a.stride as nat, b.stride as nat), ia_merge_dist(a, b)) } else { 1 }
+}
+
 /// signed_merge: the result is well-formed and contains both arguments
-pub proof fn lemma_interval_merge(a: Interval, b: Interval, st: u64)
+pub proof fn lemma_ia_interval_merge(a: Interval, b: Interval, st: u64)
     requires a.inv(), b.inv(), a.w() == b.w(),
-        st as nat == (if merge_dist(a, b) < p2(64) { spec_gcd(spec_gcd(a.stride as nat, b.stride as nat), merge_dist(a, b)) } else { 1 }),
-    ensures merge_result(a, b, st).inv(), merge_result(a, b, st).w() == a.w(),
-        forall|v: Bitvector| a.gamma(v) || b.gamma(v) ==> #[trigger] merge_result(a, b, st).gamma(v),
+        st as nat == (if ia_merge_dist(a, b) < p2(64) { spec_gcd(spec_gcd(a.stride as nat, b.stride as nat), ia_merge_dist(a, b)) } else { 1 }),
+    ensures ia_merge_result(a, b, st).inv(), ia_merge_result(a, b, st).w() == a.w(),
+        forall|v: Bitvector| a.gamma(v) || b.gamma(v) ==> #[trigger] ia_merge_result(a, b, st).gamma(v),
 {
-    let r = merge_result(a, b, st);
-    let dd = merge_dist(a, b);
+    let r = ia_merge_result(a, b, st);
+    let dd = ia_merge_dist(a, b);
     let g = st as int;
     let dab = a.start.s() - b.start.s();
     lemma_p2_consts();
-    lemma_eq_iff_s(a.start, b.start);
-    if dd < p2(64) { lemma_gcd3(a.stride as nat, b.stride as nat, dd); }
+    lemma_ia_eq_iff_s(a.start, b.start);
+    if dd < p2(64) { lemma_ia_gcd3(a.stride as nat, b.stride as nat, dd); }
     else { lemma_divides_mul(1, a.stride as int); lemma_divides_mul(1, b.stride as int); lemma_divides_mul(1, dd as int); }
     if g > 0 {
         // g divides both strides and the distance of the starts
-        lemma_divides_self(g);
+        lemma_ia_divides_self(g);
         lemma_divides_add(g, 0, dd as int);
         assert(divides(g, dab) && divides(g, -dab));
-        lemma_on_stride_weaken(a.stride, g, a.end.s() - a.start.s());
-        lemma_on_stride_weaken(b.stride, g, b.end.s() - b.start.s());
+        lemma_ia_on_stride_weaken(a.stride, g, a.end.s() - a.start.s());
+        lemma_ia_on_stride_weaken(b.stride, g, b.end.s() - b.start.s());
         lemma_divides_add(g, a.end.s() - a.start.s(), -dab);
         lemma_divides_add(g, b.end.s() - b.start.s(), dab);
         assert(on_stride(st, r.end.s() - r.start.s()));
         assert forall|v: Bitvector| a.gamma(v) || b.gamma(v) implies #[trigger] r.gamma(v) by {
             if a.gamma(v) {
-                lemma_on_stride_weaken(a.stride, g, v.s() - a.start.s());
+                lemma_ia_on_stride_weaken(a.stride, g, v.s() - a.start.s());
                 lemma_divides_add(g, v.s() - a.start.s(), -dab);
             } else {
-                lemma_on_stride_weaken(b.stride, g, v.s() - b.start.s());
+                lemma_ia_on_stride_weaken(b.stride, g, v.s() - b.start.s());
                 lemma_divides_add(g, v.s() - b.start.s(), dab);
             }
         }
@@ -319,30 +324,30 @@ pub proof fn lemma_interval_merge(a: Interval, b: Interval, st: u64)
 
 /// signed_merge is stable: if b is contained in a (and the distance of the starts fits u64),
 /// the merged stride is a multiple of a's stride (so nothing is added)
-pub proof fn lemma_merge_stable(a: Interval, b: Interval, g: nat)
+pub proof fn lemma_ia_merge_stable(a: Interval, b: Interval, g: nat)
     requires a.inv(), b.inv(), a.w() == b.w(),
         forall|v: Bitvector| b.gamma(v) ==> a.gamma(v),
-        g == spec_gcd(spec_gcd(a.stride as nat, b.stride as nat), merge_dist(a, b))
-            || g == spec_gcd(spec_gcd(b.stride as nat, a.stride as nat), merge_dist(b, a)),
+        g == spec_gcd(spec_gcd(a.stride as nat, b.stride as nat), ia_merge_dist(a, b))
+            || g == spec_gcd(spec_gcd(b.stride as nat, a.stride as nat), ia_merge_dist(b, a)),
     ensures a.start.s() <= b.start.s() && b.end.s() <= a.end.s(),
         a.stride == 0 ==> g == 0,
         a.stride > 0 ==> g > 0 && divides(a.stride as int, g as int),
 {
     let w = a.w();
     let (sa, sb) = (a.stride as int, b.stride as int);
-    let dd = merge_dist(a, b);
-    assert(merge_dist(b, a) == dd);
-    if sb > 0 { lemma_divides_self(sb); }
+    let dd = ia_merge_dist(a, b);
+    assert(ia_merge_dist(b, a) == dd);
+    if sb > 0 { lemma_ia_divides_self(sb); }
     assert(b.gamma(b.start) && b.gamma(b.end));
     assert(a.gamma(b.start) && a.gamma(b.end));
     assert(dd == b.start.s() - a.start.s());
-    lemma_gcd3(a.stride as nat, b.stride as nat, dd);
-    lemma_gcd3(b.stride as nat, a.stride as nat, dd);
+    lemma_ia_gcd3(a.stride as nat, b.stride as nat, dd);
+    lemma_ia_gcd3(b.stride as nat, a.stride as nat, dd);
     if sa > 0 {
-        lemma_divides_self(sa);
+        lemma_ia_divides_self(sa);
         // sa | sb: b.start and b.start + sb are members of b, hence of a
         if sb > 0 {
-            lemma_divides_le(sb, b.end.s() - b.start.s());
+            lemma_ia_divides_le(sb, b.end.s() - b.start.s());
             lemma_sval(w, b.start.u@); lemma_sval(w, b.end.u@);
             let x = b.start.s() + sb;
             let v1 = bv(w, trunc(w, x));
@@ -352,28 +357,173 @@ pub proof fn lemma_merge_stable(a: Interval, b: Interval, g: nat)
             lemma_divides_add(sa, x - a.start.s(), b.start.s() - a.start.s());
         }
         assert(divides(sa, sb));
-        lemma_gcd_greatest(a.stride as nat, b.stride as nat, sa);
-        lemma_gcd_greatest(b.stride as nat, a.stride as nat, sa);
-        lemma_gcd_greatest(spec_gcd(a.stride as nat, b.stride as nat), dd, sa);
-        lemma_gcd_greatest(spec_gcd(b.stride as nat, a.stride as nat), dd, sa);
+        lemma_ia_gcd_greatest(a.stride as nat, b.stride as nat, sa);
+        lemma_ia_gcd_greatest(b.stride as nat, a.stride as nat, sa);
+        lemma_ia_gcd_greatest(spec_gcd(a.stride as nat, b.stride as nat), dd, sa);
+        lemma_ia_gcd_greatest(spec_gcd(b.stride as nat, a.stride as nat), dd, sa);
     }
 }
 
 /// members of the merged interval are members of a when b is contained in a
-pub proof fn lemma_merge_stable_gamma(a: Interval, b: Interval, st: u64, swapped: bool)
+pub proof fn lemma_ia_merge_stable_gamma(a: Interval, b: Interval, st: u64, swapped: bool)
     requires a.inv(), b.inv(), a.w() == b.w(),
         forall|v: Bitvector| b.gamma(v) ==> a.gamma(v),
-        merge_dist(a, b) < p2(64),
-        st as nat == (if swapped { spec_gcd(spec_gcd(b.stride as nat, a.stride as nat), merge_dist(b, a)) }
-                      else { spec_gcd(spec_gcd(a.stride as nat, b.stride as nat), merge_dist(a, b)) }),
-    ensures forall|v: Bitvector| #[trigger] merge_result(a, b, st).gamma(v) ==> a.gamma(v),
-            forall|v: Bitvector| #[trigger] merge_result(b, a, st).gamma(v) ==> a.gamma(v),
+        ia_merge_dist(a, b) < p2(64),
+        st as nat == (if swapped { spec_gcd(spec_gcd(b.stride as nat, a.stride as nat), ia_merge_dist(b, a)) }
+                      else { spec_gcd(spec_gcd(a.stride as nat, b.stride as nat), ia_merge_dist(a, b)) }),
+    ensures forall|v: Bitvector| #[trigger] ia_merge_result(a, b, st).gamma(v) ==> a.gamma(v),
+            forall|v: Bitvector| #[trigger] ia_merge_result(b, a, st).gamma(v) ==> a.gamma(v),
 {
-    lemma_merge_stable(a, b, st as nat);
-    lemma_eq_iff_s(a.start, b.start); lemma_eq_iff_s(a.end, b.end);
-    assert(merge_result(a, b, st) == merge_result(b, a, st));
-    let r = merge_result(a, b, st);
+    lemma_ia_merge_stable(a, b, st as nat);
+    lemma_ia_eq_iff_s(a.start, b.start); lemma_ia_eq_iff_s(a.end, b.end);
+    assert(ia_merge_result(a, b, st) == ia_merge_result(b, a, st));
+    let r = ia_merge_result(a, b, st);
     assert forall|v: Bitvector| #[trigger] r.gamma(v) implies a.gamma(v) by {
         if a.stride > 0 { lemma_divides_trans(a.stride as int, st as int, v.s() - a.start.s()); }
+    }
+}
+
+// ---------------- signed_mul -----------------------------------------------------
+
+pub open spec fn ia_min2(a: int, b: int) -> int { if a <= b { a } else { b } }
+pub open spec fn ia_max2(a: int, b: int) -> int { if a >= b { a } else { b } }
+pub open spec fn ia_smin_bv(x: Bitvector, y: Bitvector) -> Bitvector { if x.s() <= y.s() { x } else { y } }
+pub open spec fn ia_smax_bv(x: Bitvector, y: Bitvector) -> Bitvector { if x.s() >= y.s() { x } else { y } }
+
+/// x*y is monotone or antitone in x
+pub proof fn lemma_ia_mul_between(lo: int, hi: int, x: int, y: int)
+    requires lo <= x <= hi
+    ensures (lo * y <= x * y <= hi * y) || (hi * y <= x * y <= lo * y),
+            y * lo == lo * y, y * x == x * y, y * hi == hi * y,
+{
+    if y >= 0 {
+        assert(lo * y <= x * y) by (nonlinear_arith) requires lo <= x, y >= 0;
+        assert(x * y <= hi * y) by (nonlinear_arith) requires x <= hi, y >= 0;
+    } else {
+        assert(lo * y >= x * y) by (nonlinear_arith) requires lo <= x, y < 0;
+        assert(x * y >= hi * y) by (nonlinear_arith) requires x <= hi, y < 0;
+    }
+    assert(y * lo == lo * y) by (nonlinear_arith);
+    assert(y * x == x * y) by (nonlinear_arith);
+    assert(y * hi == hi * y) by (nonlinear_arith);
+}
+
+/// the four corner products bound every product over the box [a0,a1] x [b0,b1]
+pub proof fn lemma_ia_mul_corners(a0: int, a1: int, b0: int, b1: int, x: int, y: int)
+    requires a0 <= x <= a1, b0 <= y <= b1
+    ensures ia_min2(a0 * b0, ia_min2(a0 * b1, ia_min2(a1 * b0, a1 * b1))) <= x * y,
+            x * y <= ia_max2(a0 * b0, ia_max2(a0 * b1, ia_max2(a1 * b0, a1 * b1))),
+{
+    lemma_ia_mul_between(a0, a1, x, y);   // x*y between a0*y and a1*y
+    lemma_ia_mul_between(b0, b1, y, a0);  // a0*y between a0*b0 and a0*b1
+    lemma_ia_mul_between(b0, b1, y, a1);  // a1*y between a1*b0 and a1*b1
+}
+
+/// g | x - a0 and g | y - b0  ==>  g | x*y - a0*b0
+pub proof fn lemma_ia_mul_residue(g: int, a0: int, b0: int, x: int, y: int)
+    requires g > 0, divides(g, x - a0), divides(g, y - b0)
+    ensures divides(g, x * y - a0 * b0),
+{
+    lemma_ia_divides_scale(g, x - a0, y);
+    lemma_ia_divides_scale(g, y - b0, a0);
+    assert(x * y - a0 * b0 == (x - a0) * y + a0 * (y - b0)) by (nonlinear_arith);
+    lemma_divides_add(g, (x - a0) * y, a0 * (y - b0));
+}
+
+pub open spec fn ia_mul_result(a: Interval, b: Interval) -> Interval {
+    let v1 = bv_mul(a.start, b.start);
+    let v2 = bv_mul(a.start, b.end);
+    let v3 = bv_mul(a.end, b.start);
+    let v4 = bv_mul(a.end, b.end);
+    Interval {
+        start: ia_smin_bv(v1, ia_smin_bv(v2, ia_smin_bv(v3, v4))),
+        end: ia_smax_bv(v1, ia_smax_bv(v2, ia_smax_bv(v3, v4))),
+        // (the `min == max` case was added by the repair of finding F1: before, the stride was always the gcd)
+        stride: if ia_smin_bv(v1, ia_smin_bv(v2, ia_smin_bv(v3, v4))) == ia_smax_bv(v1, ia_smax_bv(v2, ia_smax_bv(v3, v4))) { 0 }
+                else { spec_gcd(a.stride as nat, b.stride as nat) as u64 },
+    }
+}
+pub open spec fn ia_mul_fits(x: Bitvector, y: Bitvector) -> bool {
+    smin(x.w@) <= x.s() * y.s() <= smax(x.w@)
+}
+
+/// the whole result of signed_mul
+pub open spec fn ia_mul_exact(a: Interval, b: Interval, r: Interval) -> bool {
+    if a.w() <= 64 && ia_mul_fits(a.start, b.start) && ia_mul_fits(a.start, b.end) && ia_mul_fits(a.end, b.start) && ia_mul_fits(a.end, b.end) {
+        r == ia_mul_result(a, b)
+    } else {
+        r.is_full()
+    }
+}
+
+/// every product of members is a member of the result (no corner product overflows)
+pub proof fn lemma_ia_interval_mul_gamma(a: Interval, b: Interval, x: Bitvector, y: Bitvector)
+    requires a.inv(), b.inv(), a.w() == b.w(), a.w() >= 2,
+        ia_mul_fits(a.start, b.start), ia_mul_fits(a.start, b.end), ia_mul_fits(a.end, b.start), ia_mul_fits(a.end, b.end),
+        a.gamma(x), b.gamma(y),
+    ensures ia_mul_result(a, b).gamma(bv_mul(x, y)), bv_mul(x, y).s() == x.s() * y.s(),
+{
+    let w = a.w();
+    let r = ia_mul_result(a, b);
+    let (a0, a1, b0, b1) = (a.start.s(), a.end.s(), b.start.s(), b.end.s());
+    let p = x.s() * y.s();
+    lemma_mul_flag_facts(a.start, b.start); lemma_mul_flag_facts(a.start, b.end);
+    lemma_mul_flag_facts(a.end, b.start); lemma_mul_flag_facts(a.end, b.end);
+    lemma_ia_mul_corners(a0, a1, b0, b1, x.s(), y.s());
+    assert(r.start.s() == ia_min2(a0 * b0, ia_min2(a0 * b1, ia_min2(a1 * b0, a1 * b1))));
+    assert(r.end.s() == ia_max2(a0 * b0, ia_max2(a0 * b1, ia_max2(a1 * b0, a1 * b1))));
+    lemma_mul_flag_facts(x, y);
+    assert(bv_mul(x, y).s() == p);
+    lemma_ia_eq_iff_s(r.start, r.end);
+    let g = spec_gcd(a.stride as nat, b.stride as nat) as int;
+    lemma_gcd(a.stride as nat, b.stride as nat);
+    lemma_gcd_bound(a.stride as nat, b.stride as nat);
+    if g > 0 {
+        lemma_ia_divides_self(g);
+        lemma_ia_on_stride_weaken(a.stride, g, x.s() - a0);
+        lemma_ia_on_stride_weaken(b.stride, g, y.s() - b0);
+        lemma_ia_on_stride_weaken(a.stride, g, a1 - a0);
+        lemma_ia_on_stride_weaken(b.stride, g, b1 - b0);
+        lemma_ia_mul_residue(g, a0, b0, x.s(), y.s());
+        lemma_ia_mul_residue(g, a0, b0, a0, b0);
+        lemma_ia_mul_residue(g, a0, b0, a0, b1);
+        lemma_ia_mul_residue(g, a0, b0, a1, b0);
+        lemma_ia_mul_residue(g, a0, b0, a1, b1);
+        lemma_divides_add(g, p - a0 * b0, a0 * b0 - a0 * b0);
+        lemma_divides_add(g, p - a0 * b0, a0 * b1 - a0 * b0);
+        lemma_divides_add(g, p - a0 * b0, a1 * b0 - a0 * b0);
+        lemma_divides_add(g, p - a0 * b0, a1 * b1 - a0 * b0);
+    }
+}
+
+/// Interval::signed_mul, the case in which no corner product overflows
+pub proof fn lemma_ia_interval_mul(a: Interval, b: Interval)
+    requires a.inv(), b.inv(), a.w() == b.w(), a.w() >= 2,
+        ia_mul_fits(a.start, b.start), ia_mul_fits(a.start, b.end), ia_mul_fits(a.end, b.start), ia_mul_fits(a.end, b.end),
+    ensures ia_mul_result(a, b).w() == a.w(),
+        forall|x: Bitvector, y: Bitvector| a.gamma(x) && b.gamma(y) ==> #[trigger] ia_mul_result(a, b).gamma(bv_mul(x, y)),
+        ia_mul_result(a, b).inv(),
+{
+    let w = a.w();
+    let r = ia_mul_result(a, b);
+    let (a0, a1, b0, b1) = (a.start.s(), a.end.s(), b.start.s(), b.end.s());
+    assert forall|x: Bitvector, y: Bitvector| a.gamma(x) && b.gamma(y) implies #[trigger] r.gamma(bv_mul(x, y)) by {
+        lemma_ia_interval_mul_gamma(a, b, x, y);
+    }
+    let g = spec_gcd(a.stride as nat, b.stride as nat) as int;
+    lemma_gcd(a.stride as nat, b.stride as nat);
+    lemma_gcd_bound(a.stride as nat, b.stride as nat);
+    if a.stride != 0 { lemma_ia_divides_self(a.stride as int); }
+    if b.stride != 0 { lemma_ia_divides_self(b.stride as int); }
+    assert(a.gamma(a.start) && a.gamma(a.end) && b.gamma(b.start) && b.gamma(b.end));
+    // the corners are products of members
+    lemma_ia_interval_mul_gamma(a, b, a.start, b.start); lemma_ia_interval_mul_gamma(a, b, a.start, b.end);
+    lemma_ia_interval_mul_gamma(a, b, a.end, b.start); lemma_ia_interval_mul_gamma(a, b, a.end, b.end);
+    assert(r.start.wf() && r.end.wf() && r.start.w@ == r.end.w@ && r.start.s() <= r.end.s());
+    lemma_ia_eq_iff_s(r.start, r.end);
+    assert(on_stride(r.stride, r.end.s() - r.start.s()));
+    if g == 0 {
+        assert(a0 == a1 && b0 == b1);
+        assert(r.start.s() == r.end.s());
     }
 }
